@@ -10,16 +10,21 @@ Status on the pinned tree:
   one fact per return statement of `readTar`, the 404 / non-200 arms, the `tarOk && exit status` conjunction — and
   the correspondence runs (body cut at 5 / 30 / 60 %, short entries, failing retrieve commands);
 * with no fault a Store followed by a Retrieve restores every entry (both caches);
-* STORE SIDE, HTTP: `write` only logs a failed output, goes on, and closes gzip, tar and the pipe normally, so the
-  request body ends cleanly and is committed.  When the failed output had vanished (`Lstat` error, nothing written
+* STORE SIDE, HTTP — FIXED (`fix:` commit in /repo): `write` now fails the request when an output cannot be read
+  (`w.CloseWithError(err)`), and `C13_http_store_read_fault` holds at full strength.  Before: `write` only logged a
+  failed output, went on, and closed gzip, tar and the pipe normally, so the request body ended cleanly and was
+  committed (the two witnesses below, now conditional on the old fact values).  When the failed output had vanished (`Lstat` error, nothing written
   for it) the archive is well-formed and a later Retrieve is a HIT without that file: `C13_http_witness`.  The same
   happens when a ZERO-LENGTH file cannot be opened: its entry is complete, the walk of that output stops and its
   remaining files are dropped: `C13_http_witness_empty_unreadable`.  When a file with content could be stat'ed
   but not read, the header is out, the body is short, the writer is stuck, and the later Retrieve is a miss:
   `C13_http_partial`.  Were the error passed to the pipe (`CloseWithError`), the full statement would
   hold: `C13_http_if_error_propagates`.
-* STORE SIDE, COMMAND: the writer cancels (kills) the command and returns — and its deferred `tw.Close()` and
-  `w.Close()` then FINISH the archive (end marker, end-of-input).  The kill is asynchronous, so the command usually
+* STORE SIDE, COMMAND — FIXED (`fix:` commit in /repo): the writer no longer writes tar's end marker after bailing
+  out, so nothing a store command kept or committed after a read fault can be read back as complete:
+  `C13_cmd_store_read_fault` holds at full strength for every command and every outcome of the kill race.  Before:
+  the writer cancelled (killed) the command and returned — and its deferred `tw.Close()` and `w.Close()` then
+  FINISHED the archive (end marker, end-of-input); the two witnesses below are conditional on that old fact value.  The kill is asynchronous, so the command usually
   receives a well-formed archive that stops at the failed output.  `cat > $CACHE_KEY` — the form used by the
   repository's own tests — keeps it: `C13_cmd_witness`.  A command that commits only on success leaves nothing IF
   the kill lands before it sees end-of-input (`C13_cmd_atomic_if_kill_wins`); when the kill loses it commits that
@@ -34,6 +39,8 @@ open PlzVerif.RemoteCache PlzVerif.Generated
 /-- The writer of the HTTP cache goes on after a failed output / passes the error to the request. -/
 def httpContinues : Bool := !(C13.httpOnWalkError.contains "return" || C13.httpOnWalkError.contains "break")
 def httpPropagates : Bool := C13.httpOnWalkError.contains "close-with-error"
+/-- The command cache's writer finishes the archive (tar's end marker) even after bailing out: `tw.Close()` deferred. -/
+def cmdFinishesOnError : Bool := C13.cmdDeferred.contains "tar.Close"
 
 def FactsOK : Bool :=
   C13.storeFileOrder == ["lstat", "header", "open", "copy"] &&
@@ -47,10 +54,21 @@ def FactsOK : Bool :=
   -- why the command cache's reader needs the end marker
   C13.cmdRetrieveInputNeverEndsCleanly &&
   -- the streams are finished by closing tar, (gzip,) and the pipe, innermost last
-  C13.httpDeferred == ["pipe.Close", "gzip.Close", "tar.Close"] && C13.cmdDeferred == ["pipe.Close", "tar.Close"] &&
-  (C13.httpClosesPipeNormally || httpPropagates)
+  C13.httpDeferred == ["pipe.Close", "gzip.Close", "tar.Close"] &&
+  -- since the fix of the command cache's store: the pipe is always closed, tar's end marker is written only when every
+  -- output was walked
+  C13.cmdDeferred == ["pipe.Close"] && C13.cmdTarClosedAtEndOfSuccessPath &&
+  -- since the fix of `http-store-commits-after-read-error`: a failed output fails the request
+  httpPropagates
 
 theorem C13_facts_ok : FactsOK = true := by decide
+
+theorem cmd_no_finish_on_error : cmdFinishesOnError = false := by decide
+
+theorem http_propagates : httpPropagates = true := by
+  have h := C13_facts_ok
+  simp only [FactsOK, Bool.and_eq_true] at h
+  exact h.2
 
 /-- The HTTP store of this run's /repo. -/
 def httpStore (transportOK : Bool) (outs : List (List Src)) : Option (List Tok) :=
@@ -91,7 +109,7 @@ theorem C13_http_roundtrip (outs : List (List Src)) (h : anyFault outs = false) 
   simp [readToks, Function.comp_def]
 
 theorem C13_cmd_roundtrip (k : CmdKind) (outs : List (List Src)) (h : anyFault outs = false) (n : Nat) (c m w : Bool) :
-    cmdRetrieve (cmdStored k outs false n c m w) true = .hit (allEnts outs) := by
+    cmdRetrieve (cmdStored cmdFinishesOnError k outs false n c m w) true = .hit (allEnts outs) := by
   have hw := httpWrite_clean false outs ⟨[], false⟩ rfl ((anyFault_false_iff outs).mp h)
   simp only [cmdStored, cmdWrite, hw, Bool.false_eq_true, if_false, cmdRetrieve, List.nil_append, Bool.or_self]
   simp [readToks, Function.comp_def]
@@ -119,21 +137,26 @@ theorem C13_http_partial (outs : List (List Src)) (t : Bool)
 example : (httpWrite httpContinues ⟨[], false⟩ [[.ok ⟨[97], 0, [1]⟩], [.unreadable ⟨[98], 0, [2, 3]⟩], [.ok ⟨[99], 0, [4]⟩]]).1.broken = true := by
   decide
 
-/-- FULL STATEMENT FAILS for the HTTP cache: outputs a, b, c; b has vanished.  The Store commits; the later Retrieve
-    is a HIT that restores a and c — not a miss, and not the complete tree. -/
-theorem C13_http_witness :
+/-- THE OLD DEFECT, conditional on the old fact values (the writer goes on after a failed output and closes the pipe
+    normally): outputs a, b, c; b has vanished.  The Store commits; the later Retrieve is a HIT that restores a and c —
+    not a miss, and not the complete tree. -/
+theorem C13_http_witness (hold : httpContinues = true ∧ httpPropagates = false) :
     ∃ (outs : List (List Src)) (restored : List Ent), anyFault outs = true ∧
-      httpRetrieve (httpStore true outs) true = .hit restored ∧ restored ≠ allEnts outs :=
-  ⟨[[.ok ⟨[97], 0, [1]⟩], [.vanished ⟨[98], 0, [2]⟩], [.ok ⟨[99], 0, [3]⟩]],
+      httpRetrieve (httpStore true outs) true = .hit restored ∧ restored ≠ allEnts outs := by
+  unfold httpStore
+  rw [hold.1, hold.2]
+  exact ⟨[[.ok ⟨[97], 0, [1]⟩], [.vanished ⟨[98], 0, [2]⟩], [.ok ⟨[99], 0, [3]⟩]],
    [⟨[97], 0, [1]⟩, ⟨[99], 0, [3]⟩], by decide, by decide, by decide⟩
 
-/-- The other trigger of the same defect: inside the directory output d, the zero-length file q cannot be opened.
-    Its entry is complete, so the writer stays healthy, but the walk of d stops: r is dropped.  The later Retrieve is
-    a HIT restoring d, p and q — without r. -/
-theorem C13_http_witness_empty_unreadable :
+/-- The other trigger of the old defect (same condition): inside the directory output d, the zero-length file q cannot be
+    opened.  Its entry is complete, so the writer stays healthy, but the walk of d stops: r is dropped.  The later
+    Retrieve is a HIT restoring d, p and q — without r. -/
+theorem C13_http_witness_empty_unreadable (hold : httpContinues = true ∧ httpPropagates = false) :
     ∃ (outs : List (List Src)) (restored : List Ent), anyFault outs = true ∧
-      httpRetrieve (httpStore true outs) true = .hit restored ∧ restored ≠ allEnts outs :=
-  ⟨[[.ok ⟨[100], 1, []⟩, .ok ⟨[100, 47, 112], 0, [1]⟩, .unreadable ⟨[100, 47, 113], 0, []⟩, .ok ⟨[100, 47, 114], 0, [2]⟩]],
+      httpRetrieve (httpStore true outs) true = .hit restored ∧ restored ≠ allEnts outs := by
+  unfold httpStore
+  rw [hold.1, hold.2]
+  exact ⟨[[.ok ⟨[100], 1, []⟩, .ok ⟨[100, 47, 112], 0, [1]⟩, .unreadable ⟨[100, 47, 113], 0, []⟩, .ok ⟨[100, 47, 114], 0, [2]⟩]],
    [⟨[100], 1, []⟩, ⟨[100, 47, 112], 0, [1]⟩, ⟨[100, 47, 113], 0, []⟩], by decide, by decide, by decide⟩
 
 /-- With the error passed on to the request (the pipe closed WITH the error), any read fault leaves nothing on a
@@ -143,6 +166,15 @@ theorem C13_http_if_error_propagates (c : Bool) (outs : List (List Src)) (h : an
   have hf := httpWrite_fault c outs ⟨[], false⟩ h
   unfold httpStored httpRetrieve
   cases t <;> simp [hf]
+
+/-- FULL STRENGTH for the repaired code (`w.CloseWithError(err)` on a failed output): whatever cannot be read —
+    vanished, unreadable with or without content, anywhere in any output — the request fails, a server that commits
+    only complete requests keeps nothing, and every later Retrieve is a miss. -/
+theorem C13_http_store_read_fault (outs : List (List Src)) (h : anyFault outs = true) (t b : Bool) :
+    httpRetrieve (httpStore t outs) b = .miss := by
+  unfold httpStore
+  rw [http_propagates]
+  exact C13_http_if_error_propagates httpContinues outs h t b
 
 /-- A transport failure during Store leaves nothing (server commits complete requests only). -/
 theorem C13_http_store_transport_fault (outs : List (List Src)) (b : Bool) :
@@ -154,34 +186,55 @@ theorem C13_http_store_transport_fault (outs : List (List Src)) (b : Bool) :
 /-- A store command that commits only when it runs to the end leaves nothing after any read fault — provided the
     kill reaches it before it sees end-of-input. -/
 theorem C13_cmd_atomic_if_kill_wins (outs : List (List Src)) (h : anyFault outs = true) (f : Bool) (n : Nat) (c m b : Bool) :
-    cmdRetrieve (cmdStored .atomic outs f n c m true) b = .miss := by
+    cmdRetrieve (cmdStored cmdFinishesOnError .atomic outs f n c m true) b = .miss := by
   have hf := httpWrite_fault false outs ⟨[], false⟩ h
   simp [cmdStored, cmdWrite, hf, cmdRetrieve]
 
-/-- FULL STATEMENT FAILS even for a commit-on-success command when the kill loses the race: outputs a, b, c; c has
-    vanished; the writer cancels, finishes the archive and closes the pipe; the command reads to the end, exits 0
-    and commits.  The later Retrieve is a HIT restoring a and b. -/
-theorem C13_cmd_atomic_race_witness :
+/-- THE OLD DEFECT, conditional on the old fact value (the writer finished the archive after bailing out), even for a
+    commit-on-success command when the kill loses the race: outputs a, b, c; c has vanished; the writer cancels,
+    finishes the archive and closes the pipe; the command reads to the end, exits 0 and commits.  The later Retrieve is a
+    HIT restoring a and b. -/
+theorem C13_cmd_atomic_race_witness (hold : cmdFinishesOnError = true) :
     ∃ (outs : List (List Src)) (restored : List Ent), anyFault outs = true ∧
-      cmdRetrieve (cmdStored .atomic outs false 0 false false false) true = .hit restored ∧ restored ≠ allEnts outs :=
-  ⟨[[.ok ⟨[97], 0, [1]⟩], [.ok ⟨[98], 0, [2]⟩], [.vanished ⟨[99], 0, [3]⟩]],
+      cmdRetrieve (cmdStored cmdFinishesOnError .atomic outs false 0 false false false) true = .hit restored ∧
+      restored ≠ allEnts outs := by
+  rw [hold]
+  exact ⟨[[.ok ⟨[97], 0, [1]⟩], [.ok ⟨[98], 0, [2]⟩], [.vanished ⟨[99], 0, [3]⟩]],
    [⟨[97], 0, [1]⟩, ⟨[98], 0, [2]⟩], by decide, by decide, by decide⟩
 
-/-- FULL STATEMENT FAILS for `cat > $CACHE_KEY`: outputs a, b, c; c has vanished; both earlier entries and the end
-    marker written by the deferred `tw.Close()` got through before the kill.  The file under the key is a well-formed
+/-- THE OLD DEFECT for `cat > $CACHE_KEY` (same condition): outputs a, b, c; c has vanished; both earlier entries and the
+    end marker written by the deferred `tw.Close()` got through before the kill.  The file under the key is a well-formed
     archive of a and b: the later Retrieve is a HIT. -/
-theorem C13_cmd_witness :
+theorem C13_cmd_witness (hold : cmdFinishesOnError = true) :
     ∃ (outs : List (List Src)) (arrived : Nat) (restored : List Ent), anyFault outs = true ∧
-      cmdRetrieve (cmdStored .naive outs false arrived false true true) true = .hit restored ∧ restored ≠ allEnts outs :=
-  ⟨[[.ok ⟨[97], 0, [1]⟩], [.ok ⟨[98], 0, [2]⟩], [.vanished ⟨[99], 0, [3]⟩]], 2,
+      cmdRetrieve (cmdStored cmdFinishesOnError .naive outs false arrived false true true) true = .hit restored ∧
+      restored ≠ allEnts outs := by
+  rw [hold]
+  exact ⟨[[.ok ⟨[97], 0, [1]⟩], [.ok ⟨[98], 0, [2]⟩], [.vanished ⟨[99], 0, [3]⟩]], 2,
    [⟨[97], 0, [1]⟩, ⟨[98], 0, [2]⟩], by decide, by decide, by decide⟩
+
+/-- FULL STRENGTH for the repaired writer (no end marker after bailing out): after ANY read fault, whatever the user's
+    store command is, however much of the stream it took in, and whoever wins the race between the kill and the closing
+    of the pipe — a later Retrieve is a miss. -/
+theorem C13_cmd_store_read_fault (k : CmdKind) (outs : List (List Src)) (h : anyFault outs = true)
+    (f : Bool) (n : Nat) (c m w b : Bool) :
+    cmdRetrieve (cmdStored cmdFinishesOnError k outs f n c m w) b = .miss := by
+  have hf : (cmdWrite ⟨[], false⟩ outs).2 = true := httpWrite_fault false outs ⟨[], false⟩ h
+  rw [cmd_no_finish_on_error]
+  cases b with
+  | false => cases hs : cmdStored false k outs f n c m w <;> simp [cmdRetrieve]
+  | true =>
+    simp only [cmdStored, hf, Bool.true_or, if_true, Bool.false_or, Bool.not_true, Bool.and_false]
+    cases k with
+    | atomic => cases f <;> cases w <;> simp [cmdRetrieve]
+    | naive => cases c <;> simp [cmdRetrieve]
 
 /-- … whereas everything else a `… > $CACHE_KEY` command can be left with after a read fault is a miss: a file cut
     inside an entry, and a file that stops at an entry boundary before the end marker. -/
 theorem C13_cmd_naive_cut_is_miss (outs : List (List Src)) (n : Nat) (f c w : Bool)
     (hcut : c = true ∨ n < (cmdWrite ⟨[], false⟩ outs).1.toks.length)
     (hfault : (cmdWrite ⟨[], false⟩ outs).2 = true ∨ f = true) (m : Bool) :
-    cmdRetrieve (cmdStored .naive outs f n c m w) true = .miss := by
+    cmdRetrieve (cmdStored cmdFinishesOnError .naive outs f n c m w) true = .miss := by
   have hcond : ((cmdWrite ⟨[], false⟩ outs).2 || f) = true := by
     rcases hfault with h | h <;> simp [h]
   simp only [cmdStored, hcond, if_true]
@@ -198,9 +251,9 @@ theorem C13_cmd_naive_cut_is_miss (outs : List (List Src)) (n : Nat) (f c w : Bo
     commit-on-success commands leave nothing, the others a file without end marker. -/
 theorem C13_cmd_command_failure (k : CmdKind) (outs : List (List Src)) (n : Nat) (c m w b : Bool)
     (hpart : c = true ∨ n < (cmdWrite ⟨[], false⟩ outs).1.toks.length) :
-    cmdRetrieve (cmdStored k outs true n c m w) b = .miss := by
+    cmdRetrieve (cmdStored cmdFinishesOnError k outs true n c m w) b = .miss := by
   cases b with
-  | false => cases h : cmdStored k outs true n c m w <;> simp [cmdRetrieve]
+  | false => cases h : cmdStored cmdFinishesOnError k outs true n c m w <;> simp [cmdRetrieve]
   | true =>
     cases k with
     | atomic => simp [cmdStored, cmdRetrieve]
@@ -208,9 +261,9 @@ theorem C13_cmd_command_failure (k : CmdKind) (outs : List (List Src)) (n : Nat)
 
 -- non-vacuity of `C13_cmd_naive_cut_is_miss`: a, b arrived, b cut; and a, b arrived whole but no end marker; c had vanished
 example : (cmdWrite ⟨[], false⟩ [[.ok ⟨[97], 0, [1]⟩], [.ok ⟨[98], 0, [2]⟩], [.vanished ⟨[99], 0, [3]⟩]]).2 = true ∧
-    cmdRetrieve (cmdStored .naive [[.ok ⟨[97], 0, [1]⟩], [.ok ⟨[98], 0, [2]⟩], [.vanished ⟨[99], 0, [3]⟩]] false 2 true false true) true = .miss ∧
-    cmdRetrieve (cmdStored .naive [[.ok ⟨[97], 0, [1]⟩], [.ok ⟨[98], 0, [2]⟩], [.vanished ⟨[99], 0, [3]⟩]] false 2 false false true) true = .miss ∧
-    cmdRetrieve (cmdStored .naive [[.ok ⟨[97], 0, [1]⟩], [.ok ⟨[98], 0, [2]⟩], [.vanished ⟨[99], 0, [3]⟩]] false 1 false true true) true = .miss := by
+    cmdRetrieve (cmdStored true .naive [[.ok ⟨[97], 0, [1]⟩], [.ok ⟨[98], 0, [2]⟩], [.vanished ⟨[99], 0, [3]⟩]] false 2 true false true) true = .miss ∧
+    cmdRetrieve (cmdStored true .naive [[.ok ⟨[97], 0, [1]⟩], [.ok ⟨[98], 0, [2]⟩], [.vanished ⟨[99], 0, [3]⟩]] false 2 false false true) true = .miss ∧
+    cmdRetrieve (cmdStored true .naive [[.ok ⟨[97], 0, [1]⟩], [.ok ⟨[98], 0, [2]⟩], [.vanished ⟨[99], 0, [3]⟩]] false 1 false true true) true = .miss := by
   decide
 
 end PlzVerif.Props.C13
